@@ -77,12 +77,6 @@ func c05encExec(c *cur) string {
 		mode = 2
 	}
 	mxj.XmlCheckIsValid(valid)
-	if valid && len(op0)%4 == 0 {
-		// a lenient custom decoder is a decoder option; the post-encode validity check of the
-		// encoders stays strict (well-formed output or an error)
-		mxj.CustomDecoder = &xml.Decoder{Strict: false, AutoClose: xml.HTMLAutoClose, Entity: xml.HTMLEntity}
-		defer func() { mxj.CustomDecoder = nil }()
-	}
 	notes := []string{}
 	// decoder-side escaping: decode followed by encode reproduces the original escaped values
 	if decoderMode && doc != "" {
@@ -128,6 +122,13 @@ func c05encExec(c *cur) string {
 				break
 			}
 		}
+	}
+	if valid && len(op0)%4 == 0 {
+		// a lenient custom decoder is a decoder option (set only now: it reads HTML element names
+		// such as <br> and <meta> differently); the post-encode validity check of the encoders stays
+		// strict (well-formed output or an error)
+		mxj.CustomDecoder = &xml.Decoder{Strict: false, AutoClose: xml.HTMLAutoClose, Entity: xml.HTMLEntity}
+		defer func() { mxj.CustomDecoder = nil }()
 	}
 	type encRes struct {
 		name string
